@@ -1,5 +1,8 @@
 import asyncio
+import codecs
 from glob import glob
+import io
+import locale
 import queue
 import os
 import time
@@ -144,8 +147,16 @@ class from_textfile(Source):
     """
     def __init__(self, f, poll_interval=0.100, delimiter='\n',
                  from_end=False, **kwargs):
+        self._decoder = None
         if isinstance(f, str):
-            f = open(f)
+            # Read bytes and decode incrementally (same encoding and newline
+            # translation as open(f)): a poll may fall inside a multi-byte
+            # character or between the CR and LF of a line ending, and
+            # TextIOWrapper.read() would decode what it got as if it were final.
+            f = open(f, 'rb')
+            self._decoder = io.IncrementalNewlineDecoder(
+                codecs.getincrementaldecoder(
+                    locale.getpreferredencoding(False))(), translate=True)
         self.buffer = ''
         self.file = f
         self.from_end = from_end
@@ -159,6 +170,8 @@ class from_textfile(Source):
 
     async def _run(self):
         line = self.file.read()
+        if self._decoder is not None:
+            line = self._decoder.decode(line)
         if line:
             self.buffer = self.buffer + line
             if self.delimiter in self.buffer:
